@@ -189,6 +189,39 @@ def rule_keypolicy(ctx):
             ctx.check(R, par is not None, fi.qname, "%s gate in the catch-all arm" % what,
                       "the %s check must apply to every key type not handled by a dedicated branch (RSA, "
                       "RSA-PSS, DSA): it is no longer in the final else arm" % what, fi.loc(t[0].ast))
+    # what each gate means, over boundary values (the function is walked, nothing is run)
+    from .common import spec_rows
+    C13 = ("secp256r1", "secp384r1", "secp521r1", "brainpoolP256r1", "brainpoolP384r1", "brainpoolP512r1")
+    HASH = {"secp256r1": "sha256", "secp384r1": "sha384", "secp521r1": "sha512",
+            "brainpoolP256r1": "sha256", "brainpoolP384r1": "sha384", "brainpoolP512r1": "sha512"}
+    spec_rows(ctx, R, TLSCONN + "_check_certchain_with_settings", [
+        dict(what="RSA/DSA key size within settings.minKeySize..maxKeySize",
+             dom={"cert_type": ["rsa", "rsa-pss", "dsa"], "len(publicKey)": [1023, 1024, 2048, 4096, 4097],
+                  "settings.minKeySize": [1024], "settings.maxKeySize": [4096]},
+             abort=lambda e: not 1024 <= e["len(publicKey)"] <= 4096,
+             msg="a peer key whose size is outside the settings' limits must be refused"),
+        dict(what="ECDSA curve among settings.eccCurves in TLS <= 1.2",
+             dom={"cert_type": ["ecdsa"], "curve_name": ["secp256r1", "secp384r1", "secp224r1"],
+                  "self.version": [(3, 1), (3, 3)], "settings.eccCurves": [("secp256r1",), ("secp384r1", "secp256r1")]},
+             abort=lambda e: e["curve_name"] not in e["settings.eccCurves"],
+             msg="an ECDSA peer certificate on a curve the settings do not enable must be refused"),
+        dict(what="ECDSA curve permitted by TLS 1.3 and its hash among settings.ecdsaSigHashes",
+             dom={"cert_type": ["ecdsa"], "curve_name": list(C13) + ["secp224r1"], "self.version": [(3, 4)],
+                  "settings.eccCurves": [()],
+                  "settings.ecdsaSigHashes": [("sha256",), ("sha384",), ("sha512",), ("sha256", "sha384", "sha512")]},
+             abort=lambda e: e["curve_name"] not in C13 or HASH[e["curve_name"]] not in e["settings.ecdsaSigHashes"],
+             msg="in TLS 1.3 an ECDSA peer certificate must use a TLS 1.3 curve whose matching hash the settings enable"),
+        dict(what="EdDSA certificate needs TLS >= 1.2 and its scheme in settings.more_sig_schemes",
+             dom={"cert_type": ["Ed25519", "Ed448"], "self.version": [(3, 2), (3, 3), (3, 4)],
+                  "settings.more_sig_schemes": [(), ("Ed25519",), ("Ed448", "Ed25519")]},
+             abort=lambda e: e["self.version"] < (3, 3) or e["cert_type"] not in e["settings.more_sig_schemes"],
+             msg="an EdDSA peer certificate must be refused below TLS 1.2 or when its scheme is not enabled"),
+        dict(what="ML-DSA certificate needs TLS 1.3 and its scheme in settings.more_sig_schemes",
+             dom={"cert_type": ["mldsa44", "mldsa65", "mldsa87"], "self.version": [(3, 3), (3, 4)],
+                  "settings.more_sig_schemes": [(), ("mldsa44",), ("mldsa65", "mldsa87", "mldsa44")]},
+             abort=lambda e: e["self.version"] < (3, 4) or e["cert_type"] not in e["settings.more_sig_schemes"],
+             msg="an ML-DSA peer certificate must be refused below TLS 1.3 or when its scheme is not enabled"),
+    ])
     # every use of a received chain's end-entity key is preceded by the policy check
     n_sites = 0
     for f in ctx.index.all_functions():
